@@ -19,7 +19,8 @@ INVALID_SAMPLES = ["RED:BLUE", "a:b:c:d", "RED:boldd", "NAME:bold:RED", "RED/GRE
 def gen_color(rng, allow_dash=True, allow_empty=True):
     r = rng.random()
     if r < 0.40:
-        return rng.choice(NAMES)
+        name = rng.choice(NAMES)
+        return f" {name} " if rng.random() < 0.08 else name
     if r < 0.55:
         return str(rng.randrange(256))
     if r < 0.67:
@@ -36,7 +37,8 @@ def gen_color(rng, allow_dash=True, allow_empty=True):
 def gen_mods(rng):
     n = rng.choice([0, 0, 1, 1, 2, 3])
     names = rng.sample(MODS, n)
-    return ",".join(("no_" + m) if rng.random() < 0.3 else m for m in names)
+    sep = ", " if rng.random() < 0.15 else ","
+    return sep.join(("no_" + m) if rng.random() < 0.3 else m for m in names)
 
 
 def gen_descr(rng, parents, dash_with_parent=True):
@@ -57,6 +59,8 @@ def gen_descr(rng, parents, dash_with_parent=True):
         s = parent
         if cols is not None:
             s += ":" + cols
+        elif mods and rng.random() < 0.1:
+            s += ":"            # "PARENT::modifiers" - an empty colours section inherits everything
         if mods:
             s += ":" + mods
         return s
